@@ -300,6 +300,30 @@ def special_c14(prop, tier, seed, t0, chk):
         write_evidence(prop, tier, seed, t0, R, C, max(1, len(D["nondet"])), note="runtime nondeterminism: %s" % str(item)[:300])
         print("VIOLATION property=C14 replay=%s" % path)
         return 1
+    # a read of the wall clock outside telemetry (the census theorem C14_no_wall_clock is then broken): the histories
+    # that lie in the past of this machine are the ones on which such a read can matter - a difference between
+    # implementation and model in one of them is the failing input (executed in 2001 the history gave what the model
+    # gives; executed now it does not)
+    try:
+        gen = open(os.path.join(VERIF, "coq", "Generated", "MapLoops.v")).read()
+        unsafe_clock = re.findall(r'\("([^"]*)", "([^"]*)", "([^"]*)", "([^"]*)", "other"\)', gen.split("clock_uses")[-1]) if "clock_uses" in gen else []
+    except OSError:
+        unsafe_clock = []
+    if unsafe_clock:
+        past = [m for m in R["mismatches"] if m.get("t0") == "1000000000"]
+        if past:
+            m0 = past[0]
+            os.makedirs(os.path.join(BUILD, "replay"), exist_ok=True)
+            path = os.path.join(BUILD, "replay", "C14-wall-clock.json")
+            logf = os.path.join(R["outdir"], m0.get("shard", "") + ".log")
+            ops = history_ops(logf, m0.get("hist", ""), int(m0.get("step", 0))) if os.path.exists(logf) else []
+            json.dump(dict(property="C14", kind="wall-clock",
+                           what="the module reads the wall clock of the executing machine (%s); this history lies in the past of this machine (first block 2001-09-09) and its last operation does not give what it gave when it was current: %s model=[%s] now=[%s]" % (
+                               "; ".join("%s %s.%s calls %s" % u for u in unsafe_clock[:3]), m0.get("proj"), m0.get("model"), m0.get("impl")),
+                           item=m0, history=ops), open(path, "w"), indent=1)
+            write_evidence(prop, tier, seed, t0, R, C, 1, note="wall-clock dependence: %s" % str(m0)[:300])
+            print("VIOLATION property=C14 replay=%s" % path)
+            return 1
     rc = verdict(prop, tier, seed, t0, R, C, chk.results, chk.write_replay, chk.write_broken, chk.load_known(), chk.known_match)
     # add the runtime figures to the evidence
     ep = os.path.join(VERIF, "evidence", "C14.json")
